@@ -628,6 +628,13 @@ class I(_Num):
             r = z3.If(a < 2 ** (n - 1), r, z3.If(a < 2 ** n, n, r)) if n == 80 else z3.If(z3.And(a >= 2 ** (n - 1), a < 2 ** n), n, r)
         return I(r)
 
+    def __and__(self, o):
+        if isinstance(o, int) and not isinstance(o, bool) and o >= 0 and (o & (o + 1)) == 0:
+            return I(self.z % (o + 1))  # x & (2**k - 1) == x mod 2**k (two's complement semantics of Python ints)
+        return NotImplemented
+
+    __rand__ = __and__
+
     def __floordiv__(self, o):
         if isinstance(o, int) and not isinstance(o, bool) and o > 0:
             return I(self.z / o)  # z3 int division floors for positive divisors, as Python does
